@@ -322,6 +322,9 @@ def run(prog, ctx):
         ctx.check(ok and bool(defs), "C16.D5", R.key_of(fi, "guarded-normalisation"), fi.loc(),
                   "the surpluses are divided by the mean of the positive parts only when it is non-zero",
                   "normalisation of the surpluses: " + why)
+    # ------------------------------------------------------------------ D8 (shared with C17.D5)
+    from .C17 import check_per_dimension_caches
+    check_per_dimension_caches(prog, ctx, "C16.D8")
 
 
 def gram_factor_checks(prog, ctx, fi, rule, mass_names=None, lv=None):
